@@ -305,4 +305,261 @@ def stopIn : String := {lean_str(norm(bso))}
 end CelloGen.File
 """
 
-GENERATORS = {'File': gen_file}
+# ------------------------------------------------------------------------------------------------------------------------
+# CelloGen/FileScan.lean: the text side of C20 — what scan_from_with (src/Show.c) does with what a conversion of vfscanf
+# stored, per conversion and length modifier, as DATA (the narrowing / widening expression is a small term, not a flag), the
+# argument print_to_with hands to format_to per conversion, and the formats of Int / Float Show and Look (src/Num.c).
+
+CTYPES = {'char': (True, 8), 'signed char': (True, 8), 'unsigned char': (False, 8), 'short': (True, 16), 'signed short': (True, 16),
+          'unsigned short': (False, 16), 'short int': (True, 16), 'unsigned short int': (False, 16), 'int': (True, 32), 'signed int': (True, 32),
+          'signed': (True, 32), 'unsigned': (False, 32), 'unsigned int': (False, 32), 'long': (True, 64), 'signed long': (True, 64), 'long int': (True, 64),
+          'unsigned long': (False, 64), 'unsigned long int': (False, 64), 'long long': (True, 64), 'signed long long': (True, 64),
+          'unsigned long long': (False, 64), 'long long int': (True, 64), 'int8_t': (True, 8), 'uint8_t': (False, 8), 'int16_t': (True, 16),
+          'uint16_t': (False, 16), 'int32_t': (True, 32), 'uint32_t': (False, 32), 'int64_t': (True, 64), 'uint64_t': (False, 64),
+          'size_t': (False, 64), 'ssize_t': (True, 64), 'intmax_t': (True, 64), 'uintmax_t': (False, 64), 'ptrdiff_t': (True, 64),
+          'intptr_t': (True, 64), 'uintptr_t': (False, 64)}
+TYPE_RE = '(?:' + '|'.join(sorted((re.escape(k).replace(r'\ ', r'\s+') for k in CTYPES), key=len, reverse=True)) + ')'
+
+def ctype(txt, where):
+    k = _norm(txt)
+    if k not in CTYPES: raise ExtractError(f'{where}: `{k}` is not an integer type the translator knows')
+    return CTYPES[k]
+
+def lean_cty(t): return f'⟨{"true" if t[0] else "false"}, {t[1]}⟩'
+
+class _WParser:
+    """the expression assigned to `tmp` in an arm of the integer branch:  E ::= sgn ? E : E | (type) E | ( E ) | t"""
+    def __init__(self, txt, var, where):
+        self.toks = re.findall(r'[A-Za-z_]\w*|[()?:]|\S', txt); self.i = 0; self.var = var; self.where = where; self.txt = txt
+    def peek(self): return self.toks[self.i] if self.i < len(self.toks) else None
+    def take(self, t=None):
+        x = self.peek()
+        if x is None or (t is not None and x != t): raise ExtractError(f'{self.where}: cannot read the expression `{self.txt}` (at token {self.i})')
+        self.i += 1; return x
+    def expr(self):
+        if self.peek() == 'sgn':
+            self.take(); self.take('?'); a = self.expr(); self.take(':'); b = self.expr()
+            return f'(.cond {a} {b})'
+        if self.peek() == 'not' or self.peek() == '!':
+            self.take(); self.take('sgn'); self.take('?'); a = self.expr(); self.take(':'); b = self.expr()
+            return f'(.cond {b} {a})'
+        return self.unary()
+    def unary(self):
+        if self.peek() == '(':
+            # a cast `(type) E` or a parenthesised expression
+            j = self.i + 1; words = []
+            while j < len(self.toks) and re.fullmatch(r'[A-Za-z_]\w*', self.toks[j]): words.append(self.toks[j]); j += 1
+            if words and j < len(self.toks) and self.toks[j] == ')' and ' '.join(words) in CTYPES:
+                self.i = j + 1
+                e = self.unary()
+                return f'(.cast {lean_cty(CTYPES[" ".join(words)])} {e})'
+            self.take('('); e = self.expr(); self.take(')'); return e
+        x = self.take()
+        if x != self.var: raise ExtractError(f'{self.where}: `{x}` in `{self.txt}` is neither the temporary `{self.var}`, `sgn`, nor a cast')
+        return '.t'
+    def parse(self):
+        e = self.expr()
+        if self.peek() is not None: raise ExtractError(f'{self.where}: trailing text in the expression `{self.txt}`')
+        return e
+
+# the branches of scan_from_with that Cello/FileText.lean mirrors, with the parts extracted as data masked out
+SCAN_STR_BRANCH = ("int err = format_from(input, pos, fmt_buf, c_str(a), &off); if (err < 1) { throw(FormatError, \"Unable to input String!\"); } pos += off;")
+SCAN_LIT_BRANCH = ("memcpy(fmt_buf, start, fmt - start); fmt_buf[fmt - start] = '\\0'; format_from(input, pos, fmt_buf); pos += (int)(fmt - start); continue;")
+SCAN_SPEC_HEAD = ("int off = 0; memcpy(fmt_buf, start, fmt - start + 1); fmt_buf[fmt - start + 1] = '\\0'; strcat(fmt_buf, \"%n\"); if (index >= len(args)) { "
+                  "throw(FormatError, \"Not enough arguments to Format String!\"); } var a = get(args, $I(index)); index++; "
+                  "if (*fmt is '$') { pos = look_from(a, input, pos); }")
+PRINT_BRANCHES = [('$', 'pos = show_to(a, out, pos);'),
+                  ('s', 'int off = format_to(out, pos, fmt_buf, c_str(a)); if (off < 0) { throw(FormatError, "Unable to output String!"); } pos += off;'),
+                  ('diouxX', 'int off = format_to(out, pos, fmt_buf, c_int(a)); if (off < 0) { throw(FormatError, "Unable to output Int!"); } pos += off;'),
+                  ('fFeEgGaA', 'int off = format_to(out, pos, fmt_buf, c_float(a)); if (off < 0) { throw(FormatError, "Unable to output Real!"); } pos += off;'),
+                  ('c', 'int off = format_to(out, pos, fmt_buf, c_int(a)); if (off < 0) { throw(FormatError, "Unable to output Char!"); } pos += off;'),
+                  ('p', 'int off = format_to(out, pos, fmt_buf, a); if (off < 0) { throw(FormatError, "Unable to output Object!"); } pos += off;')]
+
+def _cbytes(s, where):
+    from g_text import c_unescape
+    return c_unescape(s, where)
+
+def gen_file_scan(repo):
+    shw = read(f'{repo}/src/Show.c')
+    sb = _norm(func_body(shw, 'scan_from_with'))
+    W = 'scan_from_with'
+    # ---- the literal branch and the head of the specification branch (pinned texts)
+    ml = re.search(r"if \(start isnt fmt\) \{ (memcpy\(fmt_buf, start, fmt - start\);.*?continue;) \}", sb)
+    lit_txt = ml.group(1) if ml else ''
+    mh = re.search(r"if \(start isnt fmt\) \{ (int off = 0; .*?if \(\*fmt is '\$'\) \{.*?\}) else if", sb)
+    head_txt = mh.group(1) if mh else ''
+    # ---- the chain of branches after `%$`: (test, body) in order
+    chain = []
+    if mh:
+        rest = sb[mh.end(1):].strip()
+        while True:
+            m = re.match(r"else if \((.*?)\) \{", rest)
+            if m and rest[m.end() - 1] == '{':
+                # the test may contain parentheses: find the `{` that follows the balanced test
+                k0 = rest.index('(')
+                k1 = balanced(rest, k0)
+                test = rest[k0 + 1:k1 - 1].strip()
+                kb = rest.index('{', k1 - 1)
+                e = balanced(rest, kb, '{', '}')
+                chain.append((test, rest[kb + 1:e - 1].strip()))
+                rest = rest[e:].strip(); continue
+            m = re.match(r"else \{", rest)
+            if m:
+                e = balanced(rest, m.end() - 1, '{', '}')
+                chain.append(('else', rest[m.end():e - 1].strip()))
+            break
+    if not chain: raise ExtractError(f'{W}: the chain of conversion branches after `%$` was not found')
+    def find_branch(pred, what):
+        for t, b in chain:
+            if pred(t): return t, b
+        raise ExtractError(f'{W}: no branch for {what}')
+    # ---- %s
+    _, str_txt = find_branch(lambda t: re.fullmatch(r"\*fmt is 's'", t), "`%s`")
+    # ---- integers
+    it, ib = find_branch(lambda t: re.fullmatch(r'strchr\("[diouxX]+", \*fmt\)', t) and 'd' in t, 'the integer conversions')
+    int_convs = _cbytes(re.fullmatch(r'strchr\("([^"]*)", \*fmt\)', it).group(1), W)
+    mt = re.search(r'if \(err < 1\) \{ throw\(FormatError, "Unable to input Int!"\); \} pos \+= off; assign\(a, \$I\(tmp\)\);$', ib)
+    if not mt: raise ExtractError(f'{W}: the integer branch does not end in `if (err < 1) {{ throw … }} pos += off; assign(a, $I(tmp));`')
+    ib = ib[:mt.start()].strip()
+    m0 = re.match(r'(' + TYPE_RE + r') tmp = 0; ', ib)
+    if not m0: raise ExtractError(f'{W}: the integer branch does not start with the declaration of `tmp`: `{ib[:80]}`')
+    tmp_ty = ctype(m0.group(1), W)
+    ib2 = ib[m0.end():]
+    arms = []; int_signed = []
+    DIRECT = r'(?:int )?err = format_from\(input, pos, fmt_buf, &tmp, &off\);'
+    if re.fullmatch(DIRECT, ib2):
+        arms.append(('else', [], tmp_ty, True, '.t'))                     # before 9114264: everything is read into `tmp` itself
+    else:
+        mh2 = re.match(r'int err = 0; bool sgn = strchr\("([^"]*)", \*fmt\) isnt NULL; ', ib2)
+        if not mh2: raise ExtractError(f'{W}: integer branch: expected `int err = 0; bool sgn = strchr("…", *fmt) isnt NULL;`, found `{ib2[:100]}`')
+        int_signed = _cbytes(mh2.group(1), W)
+        ch = ib2[mh2.end():].strip()
+        while ch:
+            m = re.match(r'(?:else )?if \((strpbrk|strstr)\(fmt_buf, "([^"]*)"\)\) \{', ch) or re.match(r"(?:else )?if \((strchr)\(fmt_buf, '((?:\\.|[^'\\])+)'\)\) \{", ch)
+            final = False
+            if m: kind, arg, k = m.group(1), _cbytes(m.group(2), W), m.end() - 1
+            else:
+                m = re.match(r'else \{', ch)
+                if not m: raise ExtractError(f'{W}: integer branch: expected a test on fmt_buf or a final else near `{ch[:100]}`')
+                kind, arg, k, final = 'else', [], m.end() - 1, True
+            e = balanced(ch, k, '{', '}')
+            body = ch[k + 1:e - 1].strip()
+            if re.fullmatch(DIRECT, body): arms.append((kind, arg, tmp_ty, True, '.t'))
+            else:
+                mb = re.fullmatch(r'(' + TYPE_RE + r') (\w+) = 0; err = format_from\(input, pos, fmt_buf, &(\w+), &off\); tmp = (.*);', body)
+                if not mb or mb.group(2) != mb.group(3):
+                    raise ExtractError(f'{W}: integer branch: arm body of unexpected shape: `{body[:160]}`')
+                arms.append((kind, arg, ctype(mb.group(1), W), False, _WParser(mb.group(4), mb.group(2), W).parse()))
+            ch = ch[e:].strip()
+            if final and ch: raise ExtractError(f'{W}: integer branch: code after the final else: `{ch[:80]}`')
+    # ---- floating
+    ft, fb = find_branch(lambda t: re.fullmatch(r'strchr\("[fFeEgGaA]+", \*fmt\)', t), 'the floating conversions')
+    flt_convs = _cbytes(re.fullmatch(r'strchr\("([^"]*)", \*fmt\)', ft).group(1), W)
+    FARM = r'(double|float) tmp = 0; int err = format_from\(input, pos, fmt_buf, &tmp, &off\); if \(err < 1\) \{ throw\(FormatError, "Unable to input Float!"\); \} pos \+= off; assign\(a, \$F\(tmp\)\);'
+    mf = re.fullmatch(r'if \((.*?)\) \{ ' + FARM + r' \} else \{ ' + FARM + r' \}', fb)
+    if mf:
+        mw = re.fullmatch(r"strchr\(fmt_buf, '((?:\\.|[^'\\])+)'\)", mf.group(1)) or re.fullmatch(r'strpbrk\(fmt_buf, "([^"]*)"\)', mf.group(1))
+        if not mw: raise ExtractError(f'{W}: floating branch: unexpected test `{mf.group(1)[:80]}`')
+        flt_wide = _cbytes(mw.group(1), W); flt_then, flt_else = mf.group(2), mf.group(3)
+    else:
+        mf1 = re.fullmatch(FARM, fb)
+        if not mf1: raise ExtractError(f'{W}: floating branch of unexpected shape: `{fb[:160]}`')
+        flt_wide = []; flt_then = flt_else = mf1.group(1)
+    # ---- %c
+    _, cb = find_branch(lambda t: re.fullmatch(r"\*fmt is 'c'", t), '`%c`')
+    mc = re.fullmatch(r"(" + TYPE_RE + r") tmp = (?:'\\0'|0); int err = format_from\(input, pos, fmt_buf, &tmp, &off\); if \(err < 1\) \{ throw\(FormatError, \"Unable to input Char!\"\); \} pos \+= off; assign\(a, \$I\((.*)\)\);", cb)
+    if not mc: raise ExtractError(f'{W}: `%c` branch of unexpected shape: `{cb[:160]}`')
+    char_ty = ctype(mc.group(1), W); char_fin = _WParser(mc.group(2), 'tmp', W).parse()
+    # ---- print_to_with: which argument each conversion hands to format_to
+    pb = _norm(func_body(shw, 'print_to_with'))
+    pbr = []
+    for m in re.finditer(r"if \((?:\*fmt is '(.)'|strchr\(\"([^\"]*)\", \*fmt\))\) \{ (.*?) \} (?=if \(|fmt\+\+;)", pb):
+        pbr.append((m.group(1) or m.group(2), m.group(3).strip()))
+    # ---- Num.c: formats of Show / Look
+    num = read(f'{repo}/src/Num.c')
+    def fmt_of(fn, call, arg):
+        b = _norm(func_body(num, fn))
+        m = re.fullmatch(r'return ' + call + r'\(' + arg + r', pos, "((?:\\.|[^"\\])*)", self\);', b)
+        if not m: raise ExtractError(f'{fn}: expected `return {call}({arg}, pos, "<fmt>", self);`, found `{b[:80]}`')
+        return ''.join(chr(x) for x in _cbytes(m.group(1), fn))
+    int_show = fmt_of('Int_Show', 'print_to', 'output'); int_look = fmt_of('Int_Look', 'scan_from', 'input')
+    flt_show = fmt_of('Float_Show', 'print_to', 'output'); flt_look = fmt_of('Float_Look', 'scan_from', 'input')
+    inst_ok = bool(re.search(r'Instance\(\s*Show\s*,\s*Int_Show\s*,\s*Int_Look\s*\)', num)) and bool(re.search(r'Instance\(\s*Show\s*,\s*Float_Show\s*,\s*Float_Look\s*\)', num))
+    lb = lambda bs: '[' + ', '.join(str(x) for x in bs) + ']'
+    bl = lambda x: 'true' if x else 'false'
+    arms_txt = ',\n   '.join(f'⟨{lean_str(k)}, {lb(a)}, {lean_cty(o)}, {bl(d)}, {fin}⟩' for k, a, o, d, fin in arms)
+    pbr_txt = ', '.join(f'({lean_str(a)}, {lean_str(b)})' for a, b in pbr)
+    pbm_txt = ', '.join(f'({lean_str(a)}, {lean_str(b)})' for a, b in PRINT_BRANCHES)
+    return HEADER + f"""namespace CelloGen.FileScan
+
+/-- a C integer type on this platform (x86-64 glibc): signedness and width in bits -/
+structure CTy where
+  signed : Bool
+  bits : Nat
+deriving DecidableEq, Repr, Inhabited
+
+/-- the expression an arm of the integer branch of `scan_from_with` assigns to `tmp`, over the temporary `t` scanf stored into -/
+inductive WExpr where
+  | t                               -- the temporary
+  | cast (ty : CTy) (e : WExpr)     -- `(type) e`
+  | cond (a b : WExpr)              -- `sgn ? a : b`
+deriving DecidableEq, Repr, Inhabited
+
+/-- one arm of the chain of tests on `fmt_buf`: the test (`strpbrk` / `strstr` / `strchr` / `else`) and its argument, the type of the
+    object whose address scanf gets, whether that object is `tmp` itself (`direct`), and the expression assigned to `tmp` otherwise -/
+structure Arm where
+  test : String
+  arg : List Nat
+  obj : CTy
+  direct : Bool
+  fin : WExpr
+deriving DecidableEq, Repr, Inhabited
+
+/-- `<type> tmp = 0;` at the head of the integer branch: what `$I(tmp)` converts from -/
+def tmpTy : CTy := {lean_cty(tmp_ty)}
+/-- `strchr("…", *fmt)` that selects the integer branch -/
+def intConvs : List Nat := {lb(int_convs)}
+/-- the conversion characters for which `sgn` is true -/
+def intSigned : List Nat := {lb(int_signed)}
+def intArms : List Arm :=
+  [{arms_txt}]
+
+/-- the floating branch: its conversion characters, the characters of `fmt_buf` that select the first arm, the types read by the
+    first and the second arm -/
+def floatConvs : List Nat := {lb(flt_convs)}
+def floatWide : List Nat := {lb(flt_wide)}
+def floatThenTy : String := {lean_str(flt_then)}
+def floatElseTy : String := {lean_str(flt_else)}
+
+/-- the `%c` branch: the type of the object scanf stores the byte into and the expression handed to `$I(…)` -/
+def charTy : CTy := {lean_cty(char_ty)}
+def charFin : WExpr := {char_fin}
+
+/-- pinned texts of the remaining branches (whitespace-normalised) and the texts Cello/FileText.lean was written against -/
+def scanLitBranch : String := {lean_str(lit_txt)}
+def scanLitBranchModelled : String := {lean_str(SCAN_LIT_BRANCH)}
+def scanSpecHead : String := {lean_str(head_txt)}
+def scanSpecHeadModelled : String := {lean_str(SCAN_SPEC_HEAD)}
+def scanStrBranch : String := {lean_str(str_txt)}
+def scanStrBranchModelled : String := {lean_str(SCAN_STR_BRANCH)}
+/-- print_to_with: conversion characters ↦ the statement(s) of their branch (which argument `format_to` receives) -/
+def printBranches : List (String × String) := [{pbr_txt}]
+def printBranchesModelled : List (String × String) := [{pbm_txt}]
+
+/-- src/Num.c: `Int_Show` / `Int_Look` / `Float_Show` / `Float_Look` are one print_to / scan_from with these formats, and are the
+    Show instances of Int and Float -/
+def intShowFmt : String := {lean_str(int_show)}
+def intLookFmt : String := {lean_str(int_look)}
+def floatShowFmt : String := {lean_str(flt_show)}
+def floatLookFmt : String := {lean_str(flt_look)}
+/-- the same four formats as bytes -/
+def intShowFmtB : List Nat := {lb([ord(c) for c in int_show])}
+def intLookFmtB : List Nat := {lb([ord(c) for c in int_look])}
+def floatShowFmtB : List Nat := {lb([ord(c) for c in flt_show])}
+def floatLookFmtB : List Nat := {lb([ord(c) for c in flt_look])}
+def numShowInstances : Bool := {bl(inst_ok)}
+
+end CelloGen.FileScan
+"""
+
+GENERATORS = {'File': gen_file, 'FileScan': gen_file_scan}
